@@ -8,6 +8,9 @@ for f in sorted(glob.glob(os.path.join(V, "harness", "c[0-9][0-9]", "props.json"
     props[os.path.basename(os.path.dirname(f)).upper()] = json.load(open(f))
 allids = [json.loads(l)["id"] for l in open(os.path.join(V, "properties.jsonl"))]
 hooks = json.load(open(os.path.join(V, "hooks.json")))
+# only checks I have accepted (run on several seeds, sensitivity-tested) are claimed
+claimed = set(open(os.path.join(V, "claimed.txt")).read().split())
+props = {k: v for k, v in props.items() if k in claimed}
 checks = []
 for pid in allids:
     if pid not in props or props[pid].get("unclaimed"):
